@@ -121,7 +121,7 @@ def gen_case(rng, tier):
     for j in range(n_cons):
         p = rng.choice(alive)
         tgt = gen.path_str(p['path'])
-        kind = rng.choice(['xref', 'xref', 'idcall', 'eval_name', 'eval_container', 'fstr', 'list', 'xref_container', 'bind'])
+        kind = rng.choice(['xref', 'xref', 'idcall', 'eval_name', 'eval_container', 'fstr', 'list', 'xref_container', 'bind', 'posargs'])
         if p.get('falsy') and kind == 'fstr':
             kind = 'xref'            # a falsy result has no .name to format
         key = f'k{j}'
@@ -133,6 +133,11 @@ def gen_case(rng, tier):
             node = SP('call', func=f'verif_targets.id{j}', args=L([SP('xref', path=tgt)]))
         elif kind == 'bind':
             node = SP('bind', func=f'verif_targets.b{j}', args=M([['arg', SP('xref', path=tgt)]]))
+        elif kind == 'posargs':
+            # positions given by integer keys, written in any order (and mixed with names): the position is the key, not the place in the text
+            pa = [[0, SP('xref', path=tgt)], [1, S(f'second{j}', style='dq')], [2, S(j)], ['named', S(1)]][:rng.choice([2, 3, 4, 4])]
+            rng.shuffle(pa)
+            node = SP('call', func=f'verif_targets.ordr{j}', args=M(pa))
         elif kind == 'eval_name':
             expr = p['top'] + ''.join(f'[{c!r}]' for c in p['path'][1:])
             node = SP('eval', code=expr)
@@ -194,6 +199,12 @@ def gen_case(rng, tier):
     for o in perms:
         d = M([doc['items'][i] for i in o])
         ptexts.append([emit.emit(d, style)] + texts[1:])
+    # ... and of the keys of every mapping below (nested mappings, argument mappings of function nodes)
+    deep = copy.deepcopy(doc)
+    for _, n in list(emit.walk(deep)):
+        if n['t'] == 'map':
+            rng.shuffle(n['items'])
+    ptexts.append([emit.emit(deep, style)] + texts[1:])
     return {'route': rng.choice(['config', 'ctx']), 'texts': texts, 'perms': ptexts, 'prods': [{'path': list(p['path']), 'name': p['name'], 'top': p['top'], 'deleted': p in deleted, 'falsy': bool(p.get('falsy'))} for p in prods], 'cons': cons}
 
 
